@@ -22,7 +22,7 @@ class DockProp:
     assumptions = ["goroutine scheduling is modelled as the order in which the per-container open tasks complete"]
 
     def request(self, c):
-        return {"cmd": "dockereval", "containers": c["ctrs"], "list_fail": c["list_fail"],
+        return {"cmd": "dockereval", "containers": c["ctrs"], "list_fail": c["list_fail"], "late_last": bool(c.get("late_last")),
                 "evals": [{"query": e["q"], "limit": e["limit"], "start": e["start"], "end": e["end"], "step": e["step"], "release": e.get("release") or []} for e in c["evals"]]}
 
     def to_coq(self, c, r):
